@@ -15,10 +15,6 @@ impl Account {
     #[verifier::external_body] pub fn is_loaded_as_not_existing(&self) -> (b: bool) ensures b == self.not_existing() { unimplemented!() }
     pub fn original_info(&self) -> (r: AccountInfo) ensures r == self.original { self.original }
 }
-impl AccountInfo {
-    pub uninterp spec fn empty_spec(&self) -> bool;
-    #[verifier::external_body] pub fn is_empty(&self) -> (b: bool) ensures b == self.empty_spec() { unimplemented!() }
-}
 impl Bytecode { pub fn clone(&self) -> (r: Self) ensures r == *self { *self } }
 
 // ---- the ONE dispatch contract: which status operation one journal account triggers ----
